@@ -2,7 +2,11 @@
 import re, types
 import impl, proto, model
 
-OBLIGATIONS = ['Yalafi.C20_single_exact', 'Yalafi.C20_single_sorted', 'Yalafi.C20_accept', 'Yalafi.C20_context_marks']
+OBLIGATIONS = ['Yalafi.C20_single_exact', 'Yalafi.C20_single_sorted', 'Yalafi.C20_accept', 'Yalafi.C20_context_marks',
+               'Yalafi.C20_accept_split', 'Yalafi.C20_accept_hits_spec', 'Yalafi.C20_single_letters_e2e',
+               'Yalafi.C20_eqpunct_marks_placeholder', 'Yalafi.C20_eqpunct_sound', 'Yalafi.C20_eqpunct_excuses_regex',
+               'Yalafi.C20_eqpunct_complete', 'Yalafi.C20_eqpunct_cands', 'Yalafi.C20_eqpunct_matches', 'Yalafi.C20_classes_current',
+               'Yalafi.C20_accept_boundaries', 'Yalafi.C20_alpha_word_current']
 
 NB, NNB = ' ', ' '
 ALPH = ['a', 'b', 'B', 'z', 'S', 'I', 'x', ' ', ' ', ' ', '.', ',', ';', ':', '1', '2', '_', '-', '\n', '\t', NB, NNB, 'é', 'ß', 'я',
@@ -199,6 +203,9 @@ def run(ctx):
     if len(ctx.samples) < 2:
         ctx.sample({'plain': cases[0][0], 'accept': cases[0][1], 'reported': [m['offset'] for m in (res[0]['value'] or [])]})
     model_corr(ctx, cases, res)
+    if ctx.model_ok:
+        import corr_checks
+        corr_checks.checks_corr(ctx, ctx.scale(10000, 100000))     # accept patterns and equation punctuation: Model/Checks.lean
     e2e = [{'src': gen_e2e(rng), 'multi': rng.random() < 0.7} for _ in range(ctx.scale(30, 600))]
     for c, r in zip(e2e, ctx.pmap(run_e2e, e2e)):
         ctx.case(('e2e', c['src'], c['multi']), nontrivial=True); ctx.count('e2e_rc_%d' % r['rc'])
